@@ -30,10 +30,11 @@ def run_pipeline(chk, want, quick_cases=1500, full_cases=60000, nconc=(3, 8),
     thorough = chk.tier == "thorough"
     # 1. model checking of the specification (all invariants, exhaustive within bounds)
     if mc is not None:
-        cfgname = mc[1] if thorough else mc[0]
-        r = tlc.run("MC_Pipeline", cfgname, timeout=3000)
-        chk.mc_must_hold(cfgname, r)
-        chk.exhaustive = r.ok
+        names = mc[1] if thorough else mc[0]
+        for cfgname in ([names] if isinstance(names, str) else list(names)):
+            r = tlc.run("MC_Pipeline", cfgname, timeout=3000)
+            chk.mc_must_hold(cfgname, r)
+            chk.exhaustive = r.ok and (chk.exhaustive or cfgname == ([names] if isinstance(names, str) else list(names))[0])
     # 2. behaviours: every distinct depth-1 outcome + sampled deeper pipelines
     files = [gen_cases(chk, "d1", gen_d1)]
     for i in range(4 if thorough else 1):
